@@ -197,7 +197,7 @@ def cs_nonrepresentable(rng: random.Random, spec: dict) -> dict:
 
 
 def corr_cmdseq_write(ck: Ck) -> list[tuple[dict, bytes]]:
-    n = ck.budget(40, 600)
+    n = ck.budget(30, 600)
     cases = []
     files = []
     for i in range(n):
@@ -302,7 +302,7 @@ def cs_mutate(rng: random.Random, data: bytes) -> tuple[str, bytes]:
 
 
 def corr_cmdseq_parse(ck: Ck, files: list[tuple[dict, bytes]]) -> None:
-    n = ck.budget(60, 800)
+    n = ck.budget(40, 800)
     cases = []
     base = [d for _, d in files if len(d) < 6000] or [U.cmdseq_write({})]
     for i in range(n):
@@ -392,7 +392,7 @@ def image_case(rng: random.Random):
 def corr_image(ck: Ck) -> None:
     from srctools import binformat
     from srctools.choreo import save_scenes_image_sync, parse_scenes_image
-    n = ck.budget(45, 600)
+    n = ck.budget(32, 600)
     wcases = []
     pcases = []
     for _ in range(n):
